@@ -386,10 +386,15 @@ class Engine:
             if ok and not g.get('t', '').startswith('const '):
                 # not declared const: still a lookup table if it is private to its file and nothing there writes it or takes an address into it
                 ok = bool(g.get('static')) and root.startswith('S:') and self._never_written(unit, name)
-            cache[root] = (g['init'], g.get('fields') or []) if ok else None
+            owner = None
+            if ok:
+                for u_ in self.db.units.values():
+                    if any(g is g_ for g_ in u_.globals.values()):
+                        owner = u_
+            cache[root] = (g['init'], g.get('fields') or [], owner) if ok else None
         if cache[root] is None:
             return TOP
-        init, fields = cache[root]
+        init, fields, owner = cache[root]
         rest = p[len(root):]
         steps = re.findall(r'\[(\d+|\*)\]|\.([A-Za-z_]\w*)', rest)
         if ''.join('[%s]' % i if i else '.' + f for i, f in steps) != rest:
@@ -420,6 +425,15 @@ class Engine:
                 out.add(nd['v'])
             elif nd.get('k') == 'str':
                 out.add(('str', nd['v']))
+            elif nd.get('k') == 'fn':
+                out.add(('fn', nd['v'][2:]))
+            elif nd.get('k') == 'addr' and isinstance(nd.get('v'), dict) and nd['v'].get('k') == 'var':
+                vn = nd['v']['v']
+                gv = owner.globals.get(vn) if owner is not None else None
+                if gv is not None and gv.get('static'):
+                    out.add(('&', 'S:%s:%s' % (owner.name.replace('.', '_'), vn)))
+                else:
+                    out.add(('&', 'G:' + vn))
             else:
                 return TOP
         return frozenset(out)
@@ -435,9 +449,23 @@ class Engine:
                     tgt = x.args[0]
                 if tgt is None:
                     continue
-                y = tgt.strip()
-                while y is not None and y.k in ('idx', 'mem', 'cast', 'un') and y.args:
-                    y = y.args[0].strip() if y.args[0] is not None else None
+                y = tgt
+                while y is not None:
+                    if y.k == 'cast' and y.args:
+                        if y.op == 'LValueToRValue':
+                            y = None          # a pointer VALUE is used: what is written is what it points to, not the table
+                            break
+                        y = y.args[0]
+                    elif y.k == 'idx' and y.args:
+                        y = y.args[0]
+                    elif y.k == 'mem' and y.args:
+                        y = y.args[0]
+                    elif y.k == 'un' and y.op == '*' and y.args:
+                        y = y.args[0]
+                    elif y.k == 'paren' and y.args:
+                        y = y.args[0]
+                    else:
+                        break
                 if y is not None and y.k == 'ref' and y.n.get('d') == d:
                     return False
         return True
